@@ -240,7 +240,11 @@ var Flows = []Flow{
 		from := gn.user()
 		z := gn.token()
 		amt := gn.amount(n, from, z)
-		b := gn.do(n, "htlc.Create", from, types.HtlcContract, z, amt, definition.ABIHtlc.PackMethodPanic(definition.CreateHtlcMethodName, gn.user(), exp, hashType, keyMax, lock))
+		locked := gn.user()
+		if t.Choose(5) == 0 {
+			locked = gn.anyAddress() // also embedded contracts and addresses nobody holds a key for
+		}
+		b := gn.do(n, "htlc.Create", from, types.HtlcContract, z, amt, definition.ABIHtlc.PackMethodPanic(definition.CreateHtlcMethodName, locked, exp, hashType, keyMax, lock))
 		if b != nil {
 			gn.Preimages[b.Hash] = pre
 		}
